@@ -20,6 +20,11 @@ func timerDefs() []drive.TimerDef {
 		ds = append(ds, drive.TimerDef{Kind: "cycle", Start: 10, Interval: 5, N: n, End: -1, HasStart: true})
 		ds = append(ds, drive.TimerDef{Kind: "cycle", Start: 0, Interval: 5, N: n, End: 18})
 	}
+	// instants centuries ahead ("never" sentinels): not reached by any clock reading
+	ds = append(ds, drive.TimerDef{Kind: "date", Due: drive.FarA, N: 1, End: -1, Far: true})
+	ds = append(ds, drive.TimerDef{Kind: "date", Due: drive.FarB, N: 1, End: -1, Far: true})
+	ds = append(ds, drive.TimerDef{Kind: "cycle", Start: 0, Interval: 5, N: 2, End: drive.FarA, Far: true})
+	ds = append(ds, drive.TimerDef{Kind: "cycle", Start: 0, Interval: 5, N: -1, End: drive.FarB, Far: true})
 	return ds
 }
 
@@ -97,9 +102,9 @@ func C13(c *Ctx) int {
 				base = append(base, s)
 			}
 		}
-		reps := 150
+		reps := 500
 		if !c.Quick() {
-			reps = 800
+			reps = 2500
 		}
 		rj := &Job{Opts: JobOpts{Mode: "timer", Seed: c.Seed, TMs: 3000}, TimerDefs: defs}
 		for k := 0; k < reps; k++ {
